@@ -72,6 +72,7 @@ if confirmed:
     dst = "/verif/seeded/%s" % name
     os.makedirs(dst, exist_ok=True)
     for f in ("patch.diff", "demo_test.go"):
-        shutil.copy(os.path.join(src, f), dst)
+        if os.path.abspath(src) != os.path.abspath(dst):
+            shutil.copy(os.path.join(src, f), dst)
     meta["confirmation"] = {k: res[k] for k in res if k not in ("property", "name")}
     json.dump(meta, open(os.path.join(dst, "meta.json"), "w"), indent=1)
